@@ -42,6 +42,10 @@ CLAIMS["C09"] = ("site guards with comparator strictness and operand provenance;
     "Static decision of the structural part of liquidation safety and liveness: all seizure sites (12 call sites in sweeps and liquidate messages of both generations) are reachable only through ratio < MinCr (vaults) or ratio > threshold (borrows), the ratio being computed from the position's own recorded amounts and the threshold factor belonging to the transit asset the branch tests for; seizure cannot succeed without a successful auction start and hands over exactly the recorded collateral; each sweep leaves its item loop only through the header, always stores the advanced offset afterwards, under the key it was read from, wraps on an empty window; per-item units isolate their writes. NOT covered: the numeric ratio, the two-sweeps bound, list shifts caused by concurrent creation/closing.",
     "DESIGN.md §3 C09")
 
+CLAIMS["C20"] = ("store-key prefix coverage (writer prefixes vs export readers vs import writers), GenesisState field agreement, bulk-reader decode rule",
+    "Static decision, for all 15 modules, of the structural necessary conditions of the genesis round trip: every key prefix a keeper writes is exported and re-imported or re-derived at import; every GenesisState field filled by export is read by import and vice versa; every bulk reader used by export decodes the records it returns. Every state prefix is covered, which a round-trip test only does for the state its workload happens to create. The 36 prefixes that today do not survive a round trip (id counters, limit bids, histories, sweep offsets, snapshots ...) are recorded as known findings keyed by (module, prefix). NOT covered: behavioural equality after the round trip; that restored values equal exported values beyond field/prefix agreement.",
+    "DESIGN.md §3 C20")
+
 NOT_APPLICABLE = {
     "C18": "purely numeric relations between evaluations of accrual/rate functions (non-negativity, monotonicity, sub-additivity, continuity; one path through float64 math.Pow); no guard, pairing, provenance or ordering is a necessary condition of them, so no sound static argument in reach applies (DESIGN.md §3 C18, §4).",
 }
